@@ -189,3 +189,19 @@ def mro_methods(prog: Program, cname: str) -> List[FuncInfo]:
     for k in prog.cls(cname).mro():
         out += list(k.methods.values()) + list(k.getters.values()) + list(k.setters.values())
     return out
+
+
+def alloc_typecodes(prog: Program, cname: str, fld: str) -> Set[str]:
+    """typecodes of the fresh allocations  array(tc, [0]) * n  of self.<fld> in the constructor (loaders excluded)"""
+    out: Set[str] = set()
+    K = prog.cls(cname)
+    init = K.find_method("__init__")
+    if init is None:
+        return out
+    for p in paths(prog, cname, init, inline="deep"):
+        for e in p.events:
+            if e.kind == "setfield" and e.base == SELF and e.name == fld and e.value[0] == "nary" and e.value[1] == "*":
+                for x in e.value[2]:
+                    if x[0] == "newb" and x[1] == "array" and x[3] and x[3][0][0] == "c":
+                        out.add(x[3][0][1])
+    return out
